@@ -12,7 +12,7 @@ func init() {
 		ID:    "C08",
 		Level: "other",
 		Run:   c08,
-		Explanation: "Wall-clock clauses ('for a full TTL') are not decidable statically; decided on every path is the structure that makes a node primary only between acquiring and losing a lease. Lease ownership: Store.lease is written only by setLease; a non-nil lease is set only in monitorLeaseAsPrimary with its own parameter, which monitorLease obtains only from Leaser.AcquireExisting or (through acquireLeaseOrPrimaryInfo) Leaser.Acquire. Always-clear: every exit after setLease(lease) has registered the deferred setLease(nil); the deferred Lease.Close is skipped only through a captured flag whose 'preserve' value is stored only after processHandoff returned nil. Primary channel: setLease closes primaryCh exactly on non-nil -> nil and makes a fresh one on nil -> non-nil; primary contexts are built from it under Store.mu. Renewal decision table: ErrLeaseExpired ends the primary; any other error retries only while time.Since(RenewedAt)+timeout <= TTL and otherwise returns ErrLeaseExpired; and RenewedAt moves only on a successful renewal (Consul lease). Candidate: Leaser.Acquire is called only in acquireLeaseOrPrimaryInfo, only when there is no primary and the node is a candidate; the candidate flag is written only at construction. Cluster: the acquire/handoff branch of monitorLease is entered only when the leaser's cluster id is empty or equals the node's; the replica's frame loop only when the stream's cluster id equals the node's. Handoff: lease.Handoff only for a connected subscriber with the same node id while a lease is held; the lease id is sent only after a successful final renewal to exactly that subscriber; AcquireExisting only with the id received in a handoff frame. Recovery after both roles. Consul mapping: Acquire = session + KV acquire, session closed when not acquired; nil renew entry = ErrLeaseExpired; Close = KV release + session destroy; empty key = ErrNoPrimary; SetClusterID refuses an existing id.",
+		Explanation: "Wall-clock clauses ('for a full TTL') are not decidable statically; decided on every path is the structure that makes a node primary only between acquiring and losing a lease. Lease ownership: Store.lease is written only by setLease; a non-nil lease is set only in monitorLeaseAsPrimary with its own parameter, which monitorLease obtains only from Leaser.AcquireExisting or (through acquireLeaseOrPrimaryInfo) Leaser.Acquire. Always-clear: every exit after setLease(lease) has registered the deferred setLease(nil); the deferred Lease.Close is skipped only through a captured flag whose 'preserve' value is stored only after processHandoff returned nil. Primary channel: setLease closes primaryCh exactly on non-nil -> nil and makes a fresh one on nil -> non-nil; primary contexts are built from it under Store.mu. Renewal decision table: ErrLeaseExpired ends the primary; any other error retries only while time.Since(RenewedAt)+timeout <= TTL and otherwise returns ErrLeaseExpired; and RenewedAt moves only on a successful renewal (Consul lease). Candidate: Leaser.Acquire is called only in acquireLeaseOrPrimaryInfo, only when there is no primary and the node is a candidate; the candidate flag is written only at construction. Cluster: the acquire/handoff branch of monitorLease is entered only when the leaser's cluster id is empty or equals the node's; the replica's frame loop only when the stream's cluster id equals the node's. Handoff: lease.Handoff only for a connected subscriber with the same node id while a lease is held; the lease id is sent only after a successful final renewal to exactly that subscriber; AcquireExisting only with the id received in a handoff frame. Recovery after both roles. Consul mapping: Acquire = session + KV acquire, session closed when not acquired; nil renew entry = ErrLeaseExpired; Close = KV release + session destroy; empty key = ErrNoPrimary; SetClusterID refuses an existing id. The replication stream is primary-scoped: its wait loop and streamDB use only the server context and the PrimaryCtx-wrapped request context. Consul Lease.Close attempts Session.Destroy on every exit.",
 		NotDecided: "durations (renew every TTL/2 in wall-clock time, 'for a full TTL'), behaviour of a real Consul, scheduling of the election loop.",
 		Assumptions: []string{"go/ssa faithfully represents the source", "Leaser/Lease implementations outside the repository honour the interface contract"},
 	})
